@@ -1,11 +1,14 @@
 package props
 
 import (
+	"flag"
 	"fmt"
 	"os"
+	"runtime"
 	"runtime/debug"
 	"strings"
 	"testing"
+	"time"
 
 	hessian "github.com/vogo/gohessian"
 	"pgregory.net/rapid"
@@ -36,9 +39,39 @@ func TestMain(m *testing.M) {
 		workerMain()
 		return
 	}
+	startWatchdog()
 	code := m.Run()
 	rec.FlushAll()
 	os.Exit(code)
+}
+
+// startWatchdog: shortly before go test's own time limit expires (its dump cannot show the stack of a goroutine
+// that is running on another thread), stop the world, print every goroutine's stack behind a marker line and
+// leave. The driver reads from it whether the goroutine that does not come back sits in library code.
+func startWatchdog() {
+	if !flag.Parsed() {
+		flag.Parse()
+	}
+	f := flag.Lookup("test.timeout")
+	if f == nil {
+		return
+	}
+	d, err := time.ParseDuration(f.Value.String())
+	if err != nil || d <= 0 {
+		return
+	}
+	grace := d / 10
+	if grace > 20*time.Second {
+		grace = 20 * time.Second
+	}
+	go func() {
+		time.Sleep(d - grace)
+		buf := make([]byte, 64<<20)
+		buf = buf[:runtime.Stack(buf, true)]
+		fmt.Fprintf(os.Stderr, "\nVERIF-WATCHDOG: no result after %v; stacks of all goroutines follow\n\n%s\n", d-grace, buf)
+		rec.FlushAll()
+		os.Exit(4)
+	}()
 }
 
 // caseInfo is what a failing case leaves behind for the replay file.
